@@ -8,6 +8,7 @@ import (
 	"io"
 	"math/rand"
 	"net/http"
+	"net/http/httptest"
 	"os"
 	"sort"
 	"strings"
@@ -145,6 +146,10 @@ func buildRequest(method, path string, hdr [][2]string, body []byte, zeroCL bool
 	}
 	return req, nil
 }
+
+// wireHeader: the header section as a client receives it (net/http freezes the headers at the first
+// WriteHeader / Write; the recorder's live map keeps accepting changes nobody will ever see)
+func wireHeader(rec *httptest.ResponseRecorder) http.Header { return rec.Result().Header }
 
 func condHeader(conds []int) string {
 	if len(conds) == 0 {
